@@ -112,6 +112,12 @@ def run(f, fixture, rep, cfg, tier):
     rep.rule("R5", "the signature header is padded to an 8-byte boundary (C01.R6)")
     rep.include("c01", f, fixture, cfg, tier, "R5", "signature header padding", only_rules={"R6"}, floor=3)
 
+    # ---- R10 what this crate emits stays well-formed across failed operations and in the archive ---------------------------
+    rep.rule("R10", "a failed sign leaves a well-formed package (C10.R2); cpio headers are well-formed (C07.R2)")
+    if cfg != "no-default":
+        rep.include("c10", f, fixture, cfg, tier, "R10", "mutators change the package only after their fallible steps", only_rules={"R2"}, floor=4)
+    rep.include("c07", f, fixture, cfg, tier, "R10", "cpio header fields, name size and padding", only_rules={"R2"}, floor=5)
+
     # ---- R9 tag numbers ---------------------------------------------------------------------------------------
     rep.rule("R9", "tag numbers equal rpm's (rpmtag.h)")
     from tagtable import check_tag_numbers
